@@ -203,6 +203,12 @@ func (c *vT) computeRetained() {
 
 func (c *vT) build() {
 	opt := vOptCase(c.optc)
+	if pre := vParamDef("pre", 0); pre > 0 {
+		// an unrelated, diverse trie is built (and dropped) first: what a build produces must not
+		// depend on what was built before it
+		_, err := NewSlimTrie(encode.U16{}, vSweep(pre), nil)
+		vAssert(err == nil, "build-ok")
+	}
 	c.st, c.err = NewSlimTrie(c.encoder(), c.keys, c.values(), opt)
 	vAssert(c.err == nil, "build-ok")
 	if c.err != nil {
